@@ -125,7 +125,10 @@ func NewFed(w *World, cfg Config) (*Fed, error) {
 		pebbles.WithMerger(cm),
 		pebbles.WithPlanner(f.sp),
 		pebbles.WithQueryerFactory(func(pc *planner.PlanningContext, u string) queryer.Queryer {
-			// like the default factory, a queryer belongs to the request it was made for
+			// like the default factory, a queryer belongs to the request it was made for: the default
+			// factory reads the context of the client's request here (a request parsed without its
+			// Original is a nil dereference in a worker goroutine)
+			_ = pc.Request.Original.Context()
 			c := &http.Client{Transport: &boundTransport{f: f, pc: pc, url: u}}
 			return queryer.NewMultiOpQueryer(u, m).WithHTTPClient(c)
 		}),
